@@ -146,15 +146,16 @@ def run_case(seed, max_layers=5):
         idx = [i for i, d in enumerate(flat) if d['k'] in ('transform', 'apply')]
         if idx:
             i = rng.choice(idx)
-            try:
-                twice = b.c.Chain(*(objs + [objs[i]]))
-                fresh = b.c.Chain(*(objs + [b.layer(flat[i])]))
-                a1, a2 = canon(slim(observe(b, twice, NAMES, hashes=True))), canon(slim(observe(b, fresh, NAMES, hashes=True)))
-                rec['twice'] = True
-                if a1 != a2:
-                    rec['problems'].append({'kind': 'reuse', 'msg': f'layer object {i} used twice differs from a fresh copy at the second position'})
-            except Exception as e:
-                pass
+            outcome = []
+            for make in (lambda: b.c.Chain(*(objs + [objs[i]])), lambda: b.c.Chain(*(objs + [b.layer(flat[i])]))):
+                try:
+                    outcome.append(canon(slim(observe(b, make(), NAMES, hashes=True))))
+                except Exception as e:
+                    outcome.append('ERR ' + exc_name(e))
+            rec['twice'] = True
+            if outcome[0] != outcome[1]:
+                rec['problems'].append({'kind': 'reuse', 'msg': f'layer object {i} used twice differs from a fresh copy at the second position'
+                                        + (f' ({outcome[0][:60]} vs {outcome[1][:60]})' if 'ERR' in outcome[0] + outcome[1] else '')})
     # nothing composed so far changed its operands or the earlier pipelines
     for i, (d, o) in enumerate(zip(flat, objs)):
         if i in before:
@@ -218,6 +219,11 @@ def run_shard(args):
         stats['shared_dynamic'][kind] = stats['shared_dynamic'].get(kind, 0) + 1
         for p in pr:
             problems.append({'stack': p.get('source'), **p})
+    stats['inverse_sharing'] = 0
+    for i in range(max(2, n // 8)):
+        stats['inverse_sharing'] += 1
+        for p in run_inverse_sharing(seed * 31337 + i):
+            problems.append({'stack': p.get('layer'), **p})
     sample = next(({'stack': r['stack'], 'variants': r['variants']} for r in recs if len(r['variants']) >= 4), None)
     return stats, problems, model_bad, sample
 
@@ -302,3 +308,41 @@ def run_shared_dynamic(seed):
         except Exception as e:
             problems.append({'kind': 'reuse', 'layer': p, 'msg': 'raised ' + exc_name(e) + ': ' + str(e)[:150]})
     return kind, problems
+
+
+def run_inverse_sharing(seed):
+    """ONE object of a Transform with @inverse fields (its container carries backward nodes and a BagContext) used at two
+    positions of one container: twice in a chain, and in both branches of a Merge; every form must behave like the same
+    form built from fresh copies (construction outcome, fields, values, hashes)"""
+    from . import rel
+    rng = random.Random(seed)
+    problems = []
+    b = Builder()
+    params = {'_p': {'args': ['x']}} if rng.random() < 0.5 else {}
+    inv = {'k': 'transform', 'cls': 'InvS', 'fields': {'x': {'args': ['x'] + (['_p'] if params else [])}},
+           'inverses': {'x': {'args': ['x'] + (['_p'] if params and rng.random() < 0.5 else [])}}, 'params': params, 'cargs': {},
+           'defaults': {}, 'inherit': rng.choice([True, None, ['y']])}
+    if inv['inherit'] is None:
+        del inv['inherit']
+    srcs = [{'k': 'source', 'cls': f'IS{j}', 'ids': ids, 'fields': {'x': {'args': ['i'], 'f': f'IS{j}.x'}, 'y': {'args': ['i'], 'f': f'IS{j}.y'}},
+             'params': {}, 'cargs': {}, 'defaults': {}} for j, ids in enumerate([['i1', 'i2'], ['i3']])]
+    shared = b.layer(inv)
+    forms = {
+        'Chain(A, s, s)': lambda s1, s2: b.c.Chain(b.layer(srcs[0]), s1, s2),
+        'A >> s >> s': lambda s1, s2: b.layer(srcs[0]) >> s1 >> s2,
+        'Merge(A >> s, B >> s)': lambda s1, s2: b.c.Merge(b.layer(srcs[0]) >> s1, b.layer(srcs[1]) >> s2),
+        'Merge(Chain(A, s), Chain(B, s))': lambda s1, s2: b.c.Merge(b.c.Chain(b.layer(srcs[0]), s1), b.c.Chain(b.layer(srcs[1]), s2)),
+    }
+    for name, make in forms.items():
+        outcome = []
+        for s1, s2 in ((shared, shared), (b.layer(inv), b.layer(inv))):
+            try:
+                p = make(s1, s2)
+                o = rel.observe_rel(b, p, ['x', 'y'], ['i1', 'i2', 'i3'])
+                outcome.append(canon({k: o.get(k) for k in ('ids', 'ids_err', 'dir', 'values')}))
+            except Exception as e:
+                outcome.append('ERR ' + exc_name(e))
+        if outcome[0] != outcome[1]:
+            problems.append({'kind': 'reuse', 'layer': inv, 'form': name,
+                             'msg': f'one object of a Transform with inverse fields in {name}: {outcome[0][:100]}, with fresh copies: {outcome[1][:100]}'})
+    return problems
